@@ -9,6 +9,7 @@ import (
 
 	"golang.org/x/tools/go/cfg"
 	"golang.org/x/tools/go/packages"
+	"golang.org/x/tools/go/ssa"
 )
 
 // Shared helpers of the DML / statement-protocol family (C14–C21). Everything is prefixed
@@ -613,4 +614,75 @@ func dmlCondOnlyNilTests(info *types.Info, cond ast.Expr, v types.Object) bool {
 	}
 	walk(cond)
 	return ok
+}
+
+// dmlSSAFuncs lists every SSA function with a body that belongs to the given packages: package-level
+// functions, methods of every named type (exported or not, reachable or not — unlike
+// ssautil.AllFunctions this includes dead code), their anonymous functions, and the instantiations
+// of generic functions that any of them calls. Sorted by position for determinism.
+func dmlSSAFuncs(p *Prog, prog *ssa.Program, pkgs map[*types.Package]bool, pkgOf func(*ssa.Function) *types.Package) []*ssa.Function {
+	seen := map[*ssa.Function]bool{}
+	var out []*ssa.Function
+	var add func(f *ssa.Function)
+	add = func(f *ssa.Function) {
+		if f == nil || seen[f] || len(f.Blocks) == 0 || !pkgs[pkgOf(f)] {
+			return
+		}
+		seen[f] = true
+		out = append(out, f)
+		for _, af := range f.AnonFuncs {
+			add(af)
+		}
+		for _, b := range f.Blocks {
+			for _, in := range b.Instrs {
+				if ci, ok := in.(ssa.CallInstruction); ok {
+					add(ci.Common().StaticCallee())
+				}
+				if mc, ok := in.(*ssa.MakeClosure); ok {
+					if fn, ok := mc.Fn.(*ssa.Function); ok {
+						add(fn)
+					}
+				}
+			}
+		}
+	}
+	for _, pk := range p.Module {
+		if !pkgs[pk.Types] {
+			continue
+		}
+		sp := prog.Package(pk.Types)
+		if sp == nil {
+			continue
+		}
+		var names []string
+		for n := range sp.Members {
+			names = append(names, n)
+		}
+		sort.Strings(names)
+		for _, n := range names {
+			switch m := sp.Members[n].(type) {
+			case *ssa.Function:
+				add(m)
+			case *ssa.Type:
+				for _, t := range []types.Type{m.Type(), types.NewPointer(m.Type())} {
+					if _, isIface := m.Type().Underlying().(*types.Interface); isIface {
+						continue
+					}
+					ms := prog.MethodSets.MethodSet(t)
+					for i := 0; i < ms.Len(); i++ {
+						if fn := prog.MethodValue(ms.At(i)); fn != nil && fn.Synthetic == "" {
+							add(fn)
+						}
+					}
+				}
+			}
+		}
+	}
+	sort.Slice(out, func(i, j int) bool {
+		if out[i].Pos() != out[j].Pos() {
+			return out[i].Pos() < out[j].Pos()
+		}
+		return out[i].String() < out[j].String()
+	})
+	return out
 }
